@@ -258,3 +258,4 @@ var propTrust = vk.Register(&vk.Prop[Case]{
 })
 
 func TestTrust(t *testing.T) { propTrust.Run(t) }
+func FuzzTrust(f *testing.F) { propTrust.Fuzz(f) }
